@@ -180,6 +180,12 @@ func c17Identifiers(c *mon.Ctx) {
 	all := func(s string, seed bool) {
 		if !seed {
 			c.Nontrivial("id|" + s)
+			if c.WantSample() && len(s) > 6 && utf8.ValidString(s) {
+				sv, _, _ := ref.ServerName(s)
+				uv, _, _ := ref.UserID(s, false)
+				rv, _, _, _ := ref.RoomID(s)
+				c.Sample(map[string]any{"identifier": s, "grammar_says": map[string]bool{"server_name": sv == ref.Valid, "user_id": uv == ref.Valid, "room_id": rv == ref.Valid}})
+			}
 		}
 		checkServer(s)
 		checkUser(s)
